@@ -44,7 +44,7 @@ class PitRun:
         self.sess.__enter__()
         self.loop = self.sess.loop
         self.t0 = self.loop.time()
-        self.app, self.face = new_app(front)
+        self.app, self.face = new_app(front, debug_log=True)
         self.face.running = False
         self.main = self.sess.spawn(self.app.main_loop())
         self.loop.settle()
@@ -62,6 +62,7 @@ class PitRun:
     def close(self):
         for c in self.coros.values():
             c.close()
+        self.app._verif_restore_log()
         self.sess.__exit__(None, None, None)
 
     # ---- helpers
